@@ -3,6 +3,7 @@ use std::path::Path;
 
 use crate::engine::Ctx;
 
+pub mod c02;
 pub mod c17;
 
 pub struct Prop {
@@ -13,7 +14,7 @@ pub struct Prop {
 }
 
 pub fn all() -> Vec<Prop> {
-    vec![c17::PROP]
+    vec![c02::PROP, c17::PROP]
 }
 
 pub fn lookup(id: &str) -> Option<Prop> {
